@@ -140,7 +140,7 @@ def expected_caller_allocates(self, node, tag):
 
 contract(MT + '_apply_annotations_param_ret_common',
          params={'self': 'MainTransformer', 'parent': 'Node', 'node': 'Parameter|Return', 'tag': 'GtkDocParameter|GtkDocTag?'},
-         props=('C01', 'C02'), chunks=10,
+         props=('C01', 'C02'), chunks=4,
          requires=[CTYPE_OK],
          modifies=['node.type', 'node.direction', 'node.caller_allocates', 'node.nullable', 'node.not_nullable',
                    'node.optional', 'node.skip', 'node.doc', 'node.doc_position', 'node.attributes{}',
